@@ -219,6 +219,8 @@ type Machine struct {
 	labels      []string
 	choices      []int
 	envDecisions int
+	self         *selfState
+	selfTestArg  bool
 	modes        map[string]bool
 	pendingModel map[string]uint64
 	ids          int
